@@ -455,7 +455,7 @@ def extract_item(block, unit, fired_total, clauses, meta_items, mode='verus'):
                     if cnt == nth:
                         return k
             raise GenError('anchor lost: slice pattern %s in %s' % (spec, ' :: '.join(block.path)))
-        a = find_stmt(dget('from'), it.open_i + 1)
+        a = find_stmt(dget('from'), it.open_i + 1) + int(dget('skip') or 0)
         b = find_stmt(dget('to'), a) if dget('to') else a
         is_expr = any(w == 'expr' for (w, _, _) in block.directives)
         # end of statement starting at b: `;` at depth 0, or a closing `}` of a block statement at depth 0
@@ -484,9 +484,22 @@ def extract_item(block, unit, fired_total, clauses, meta_items, mode='verus'):
                         depth += 1
                     elif t.text in ')]':
                         depth -= 1
-                    elif t.text == '{' and depth == 0:
+                        if depth < 0:
+                            end = k - 1
+                            break
+                    elif t.text == '{' and depth == 0 and not any(w == 'braces' for (w, _, _) in block.directives):
                         end = k - 1
                         break
+                    elif t.text == ',' and depth == 0:
+                        end = k - 1
+                        break
+                    elif t.text == '{':
+                        depth += 1
+                    elif t.text == '}':
+                        depth -= 1
+                        if depth < 0:
+                            end = k - 1
+                            break
                 k += 1
         if end is None:
             raise GenError('slice end not found')
@@ -676,7 +689,7 @@ def extract_item(block, unit, fired_total, clauses, meta_items, mode='verus'):
             tgt, tk = locate(text, cur_segs)
             ls = line_start(text, tk[tgt.first].start)
             add(ls, tag_lines(a, 'attr', '    '))
-        elif w in ('ret', 'rw', 'only', 'drop', 'name', 'semi', 'from', 'to', 'head', 'tail', 'r6', 'r11', 'expr'):
+        elif w in ('ret', 'rw', 'only', 'drop', 'name', 'semi', 'from', 'to', 'head', 'tail', 'r6', 'r11', 'expr', 'skip', 'braces'):
             pass
         else:
             raise GenError('template line %s: unknown directive %r' % (ln, w))
